@@ -126,7 +126,7 @@ def asLogSig (v : Json) : R LogSig := do
     | some s => let sz := s.foldl (· * ·) 1; if sz > 1 then sz else toks.length
   if toks.length ≠ n then throw "number of texts does not match the shape"
   let ndim := (shape.getD []).length
-  -- memory layout; absent = C-contiguous
+  -- memory layout (ignored by the model since the code iterates in C order); absent = C-contiguous
   let perm ← (match v.getObjVal? "perm" with
     | .ok p => asList asNat p
     | .error _ => pure (List.range ndim))
@@ -169,15 +169,7 @@ def names (j : Json) : R Json := do
     ("iter_name", hexJ (iterName p false it)), ("ow_name", hexJ (iterName p true it)),
     ("csv", Json.bool (isInfixB litDotCsv p))]
 
-/-- the index sequence of `np.nditer` for a layout (self-test of the harness' layout rule) -/
-def iterOrder (j : Json) : R Json := do
-  let sh ← getList asNat j "shape"
-  let perm ← getList asNat j "perm"
-  let flip ← getList (fun x => match x.getBool? with | .ok b => pure b | .error _ => throw "flip: not a bool") j "flip"
-  let size := sh.foldl (· * ·) 1
-  return listJ (listJ natJ) ((List.range size).map fun k => iterIndex sh perm flip k)
-
 def handlers : List (String × (Json → R Json)) :=
   [("c20.b64", b64), ("c20.b64dec", b64dec), ("c20.vti", vti), ("c20.parse", parse), ("c20.wvti", wvti),
-   ("c20.log", log), ("c20.names", names), ("c20.iterorder", iterOrder)]
+   ("c20.log", log), ("c20.names", names)]
 end PymotoVerif.Drv.C20
